@@ -21,7 +21,7 @@ print(f"== {rep.qual} sha={rep.sha} paths={rep.paths} returns={rep.returns} rais
 if rep.error: print("ERROR", rep.error)
 for a in rep.aborts: print("  ABORT", a)
 for o in rep.obligations:
-    flag = "ok " if o["status"] in ("discharged", "covered") else "!! "
+    flag = "ok " if o["status"] in ("discharged", "covered", "vacuous") else "!! "
     if "-v" in sys.argv or flag == "!! ":
         print("  ", flag, o["status"], o.get("backend"), o.get("time"), o["name"], f"L{o['line']}")
         if flag == "!! " and "-m" in sys.argv: print("      ", (o.get("solver_output") or "")[:1500])
